@@ -2,6 +2,7 @@ package main
 
 import (
 	"encoding/json"
+	"go/token"
 	"go/types"
 	"reflect"
 	"flag"
@@ -32,6 +33,9 @@ type LockEntry struct {
 type LockFile struct {
 	Note       string                           `json:"note"`
 	Properties map[string]map[string]*LockEntry `json:"properties"`
+	// Params: the parameter names of every function under contract when the lock was written. Contracts bind
+	// parameters by position: if a parameter is renamed, the name used in the contract still denotes that position.
+	Params map[string][]string `json:"params,omitempty"`
 }
 
 func groupOf(id string) string {
@@ -178,6 +182,12 @@ func (w *World) structObligations(prop string) []*Obligation {
 			spec = spec[:k]
 		}
 		o := &Obligation{ID: fmt.Sprintf("STRUCT#%s:%s#0", sf.Kind, sf.Spec), Kind: "STRUCT", Func: "declarations", Text: sf.Spec, Solver: "go/types", Status: "unknown", presolved: true}
+		if sf.Kind == "pass-order" {
+			o.Solver = "go/ssa"
+			o.Status, o.Model = w.passOrder(sf.Spec)
+			out = append(out, o)
+			continue
+		}
 		k := strings.LastIndex(spec, ".")
 		if k > 0 {
 			if t, err := w.resolveType(spec[:k], nil); err == nil {
@@ -308,6 +318,23 @@ func cmdRelock(args []string) int {
 		}
 		lf.Properties[p] = ent
 		fmt.Printf("%s: %d obligations, %d locked as discharged, %d functions, %d out of subset\n", p, len(br.obls), nd, br.nFuncs, len(br.outOfSubset))
+	}
+	if *pflag == "" {
+		lf.Params = map[string][]string{}
+	} else if lf.Params == nil {
+		lf.Params = map[string][]string{}
+	}
+	for f, c := range w.Contracts.ByFunc {
+		if c == nil || f == nil || !w.InModule(f) {
+			continue
+		}
+		var names []string
+		for _, p := range f.Params {
+			names = append(names, p.Name())
+		}
+		if len(names) > 0 {
+			lf.Params[FuncKey(f)] = names
+		}
 	}
 	b, _ := json.MarshalIndent(lf, "", " ")
 	os.MkdirAll(filepath.Dir(lockPath()), 0o755)
@@ -756,4 +783,141 @@ func queryLen(o *Obligation) int {
 		return 0
 	}
 	return len(o.Query(false))
+}
+
+// passOrder decides "Driver: A < B": Driver stores function constants into one array literal at constant indices,
+// nothing else writes that array, the only dynamic call of Driver takes its callee from an element of that array
+// inside a loop whose index advances by one (a range loop), and A and B occur exactly once with A first.
+func (w *World) passOrder(spec string) (string, string) {
+	k := strings.Index(spec, ": ")
+	parts := strings.Split(spec[k+2:], " < ")
+	drv := w.Funcs[spec[:k]]
+	if drv == nil || len(parts) != 2 {
+		return "sat", "driver function not found: " + spec[:k]
+	}
+	byAlloc := map[*ssa.Alloc]map[int64]string{}
+	bad := map[*ssa.Alloc]string{}
+	var dyn []*ssa.Call
+	for _, b := range drv.Blocks {
+		for _, ins := range b.Instrs {
+			switch x := ins.(type) {
+			case *ssa.Store:
+				ia, ok := x.Addr.(*ssa.IndexAddr)
+				if !ok {
+					continue
+				}
+				al, ok := ia.X.(*ssa.Alloc)
+				if !ok {
+					continue
+				}
+				val := x.Val
+				if ct, ok := val.(*ssa.ChangeType); ok {
+					val = ct.X
+				}
+				fn, isFn := val.(*ssa.Function)
+				c, isConst := ia.Index.(*ssa.Const)
+				if !isFn || !isConst {
+					bad[al] = "a store into the literal is not 'constant index := function constant'"
+					continue
+				}
+				if byAlloc[al] == nil {
+					byAlloc[al] = map[int64]string{}
+				}
+				if _, dup := byAlloc[al][c.Int64()]; dup {
+					bad[al] = "an element of the literal is stored twice"
+				}
+				byAlloc[al][c.Int64()] = FuncKey(fn)
+			case *ssa.Call:
+				if !x.Call.IsInvoke() && x.Call.StaticCallee() == nil {
+					if _, isBuiltin := x.Call.Value.(*ssa.Builtin); !isBuiltin {
+						dyn = append(dyn, x)
+					}
+				}
+			}
+		}
+	}
+	if len(dyn) != 1 {
+		return "sat", fmt.Sprintf("%s has %d calls through function values, expected exactly one", spec[:k], len(dyn))
+	}
+	// callee = *(&slice[i]) with slice = literal[:] and i = phi(.., i+1)
+	ld, ok := dyn[0].Call.Value.(*ssa.UnOp)
+	if !ok {
+		return "sat", "the dynamic call does not load its callee from a slice element"
+	}
+	ia, ok := ld.X.(*ssa.IndexAddr)
+	if !ok {
+		return "sat", "the dynamic call does not load its callee from a slice element"
+	}
+	sl, ok := ia.X.(*ssa.Slice)
+	if !ok || sl.Low != nil || sl.High != nil {
+		return "sat", "the callee slice is not the whole literal"
+	}
+	al, ok := sl.X.(*ssa.Alloc)
+	if !ok || byAlloc[al] == nil {
+		return "sat", "the callee slice is not a literal of function constants"
+	}
+	if bad[al] != "" {
+		return "sat", bad[al]
+	}
+	for _, r := range *al.Referrers() {
+		switch r.(type) {
+		case *ssa.IndexAddr, *ssa.Slice, *ssa.DebugRef:
+		default:
+			return "sat", "the literal escapes"
+		}
+	}
+	if n := len(*sl.Referrers()); n > 2 {
+		// a range loop refers to the slice in len() and in the element address only
+		for _, r := range *sl.Referrers() {
+			switch y := r.(type) {
+			case *ssa.IndexAddr, *ssa.DebugRef:
+			case *ssa.Call:
+				if bi, ok := y.Call.Value.(*ssa.Builtin); !ok || bi.Name() != "len" {
+					return "sat", "the slice of passes is used outside the loop"
+				}
+			default:
+				return "sat", "the slice of passes is used outside the loop"
+			}
+		}
+	}
+	phi, ok := ia.Index.(*ssa.Phi)
+	if !ok || len(phi.Edges) != 2 {
+		return "sat", "the loop index is not a simple counter"
+	}
+	okStep := false
+	for _, e := range phi.Edges {
+		if bo, ok := e.(*ssa.BinOp); ok && bo.Op == token.ADD && bo.X == phi {
+			if c, ok := bo.Y.(*ssa.Const); ok && c.Int64() == 1 {
+				okStep = true
+			}
+		} else if c, ok := e.(*ssa.Const); !ok || c.Int64() != -1 && c.Int64() != 0 {
+			return "sat", "the loop index does not start at the first element"
+		}
+	}
+	if !okStep {
+		return "sat", "the loop index does not advance by one"
+	}
+	m := byAlloc[al]
+	if int64(len(m)) != al.Type().Underlying().(*types.Pointer).Elem().Underlying().(*types.Array).Len() {
+		return "sat", "not every element of the literal is a function constant"
+	}
+	pos := func(key string) (int64, int) {
+		at, n := int64(-1), 0
+		for i, f := range m {
+			if f == key {
+				at = i
+				n++
+			}
+		}
+		return at, n
+	}
+	ia1, n1 := pos(parts[0])
+	ib1, n2 := pos(parts[1])
+	if n1 != 1 || n2 != 1 {
+		return "sat", fmt.Sprintf("%s occurs %d times and %s %d times in the pass list", parts[0], n1, parts[1], n2)
+	}
+	if ia1 >= ib1 {
+		return "sat", fmt.Sprintf("%s is pass %d and runs after %s (pass %d)", parts[0], ia1, parts[1], ib1)
+	}
+	return "unsat", ""
 }
